@@ -81,6 +81,8 @@ SomeReqMisrouted(o) ==
 SomeReqFailed(o) == \E i \in DOMAIN o.ops : o.ops[i].k = "req" /\ o.ops[i].status \notin {200, 503}
 
 Check(c, o) ==
+  IF o.stuck THEN <<"HistoryStuck">>      \* an operation never returned: nothing else can be said about the history
+  ELSE
   (IF SomeReqFailed(o) THEN <<"RequestNotServed">> ELSE <<>>)
   \o (IF SomeReqMisrouted(o) THEN <<"ServedByUnknown">> ELSE <<>>)
   \o (IF ~Linearizable(o) THEN <<"NotLinearizable">> ELSE <<>>)
